@@ -2,50 +2,71 @@ PROP = dict(
     thorough_seeds=48,
     module="M3d.Props.C04",
     corr=dict(quick=300, thorough=2500),
-    gen=[],
+    gen=["Kernels"],
+    tie_modules=["M3d.Lemmas.KernelsTieRectSet"],
     corr_theorems=(
         "bool: joined_eq_any / intersected_eq_all / subtracted_eq / joined_perm / intersected_perm; "
-        "sj, sj2: smooth_eq_spec (closure = smoothSpec), smooth_perm, smooth_single, smooth_zero_radius, smooth_far; "
+        "sj, sj2: smooth_eq_spec / smoothV2_eq_spec (closure = smoothSpec), smooth_perm / smoothV2_perm, smooth_single, smooth_zero_radius, smooth_far; "
         "sjm, sj2m, sjf, sj2f: validate the faithful closure model (every permutation / IEEE doubles); "
-        "opt: optimize_eq_joined; mux: mux_spec; stk: stacked_eq_translated_union + stackedSolid_eq; "
-        "rs: rectset_build_eq_any (tree well-splitness is re-decided by the driver on every case)"),
+        "sjb, sjb2: smoothSolid_eq_spec / smoothSolidV2_eq_spec (the solid = grown joint bounds and smoothSpec at the point), smoothSolid_perm / "
+        "smoothSolidV2_perm (P=1), with smoothSolid_contains_union / _far / _zero_radius / _single / smoothSolidV2_far for the clauses the harness evaluates; "
+        "opt: optimize_eq_joined; mux: mux_spec + mux_allcontains_eq; tree: nested_combinators_eq_formula (any nest of Joined / Optimize / SolidMux / "
+        "Intersected / Subtracted = the pointwise boolean formula, which is order independent); "
+        "stk: stacked_eq_translated_union + stackedSolid_eq_translated_union; "
+        "rs: rectset_history_solid_eq_union (after every history: terminates, well split, = union of the stored boxes, = boxes added minus boxes "
+        "removed at generic points) with rectset_history_aligned; "
+        "rsp: rectset_program_solid_eq_union (every Solid() call of every program over several objects answers for the receiver's set at the time of "
+        "the call) + rectset_solid_calls_have_no_effect; tie module KernelsTieRectSet: the regenerated toolbox3d.splitRect and model3d.Rect.Contains "
+        "are the model's splitRect / Rect.contains"),
     rule=("bool: ALL bit vectors of length 1..6 x all permutations, 2D and 3D (exhaustive); smooth: operand lists of "
           "length 1..6 with dyadic distances concentrated in [-r,0], radii incl. 0, every permutation evaluated on the real "
-          "closure (SmoothJoin and SmoothJoinV2, 2D and 3D) plus IEEE-double runs; scenes: 1..9 FuncSolid leaves on a small "
+          "closure (SmoothJoin and SmoothJoinV2, 2D and 3D) plus IEEE-double runs; smooth solids (sjb, sjb2): 1..5 SDF operands with different lattice "
+          "bounds and harness-chosen fields positive only inside their bounds and at most minus the distance to the bounds outside them, one solid object per operand order (listed, reversed, two random) asked at "
+          "6..12 points inside / in the margin of / on / outside the grown joint bounds, forward and backward; scenes: 1..9 FuncSolid leaves on a small "
           "lattice (duplicates, nested, coincident bounds), queries on box faces/corners, real Optimize/SolidMux "
-          "(Contains/AllContains/IterContains with and without callback); stacks of 1..5 operands with inner boxes; RectSet "
-          "Add/Remove histories of lattice boxes incl. the empty set, queries on and between split planes; "
-          "distinct = distinct operation lines"),
+          "(Contains/AllContains/IterContains with and without callback); trees: random nests (depth <= 3) of JoinedSolid / Optimize / NewSolidMux / "
+          "IntersectedSolid / SubtractedSolid over 1..6 leaves, each nest also with every operand list shuffled, 8..14 queries; stacks of 1..5 operands with "
+          "inner boxes (queries aimed at the contents); RectSet Add/Remove/AddRectSet/RemoveRectSet histories of lattice boxes incl. the empty set and "
+          "zero-thickness boxes, queries on and between split planes; RectSet PROGRAMS over 1..3 live objects (3..12 statements, Solid() after ~60% of them and "
+          "for every object at the end, argument objects reused and changed later, self arguments, v = NewRectSet(), boxes between planes already in use), "
+          "queries on the solid just obtained and on earlier solids; distinct = distinct operation lines"),
     trusted=[
         "modelled, not verified: GroupBounders is an arbitrary reordering (theorems quantify over every permutation; the real "
-        "order is passed to the model and checked to be a permutation on every case)",
-        "modelled, not verified: RectSet.Add/Remove/addSplit/rebuildSplits (Go map as duplicate-free list) — tied by comparing "
-        "the stored rects and split lists with the real ones (verif hook) on every case; that the built tree is well split is "
-        "decided per case by the driver (Tree.wellSplitB, proved sufficient), not proved for all histories",
-        "StackedSolid's own bounds test is shown redundant only by correspondence (stackedSolid_eq keeps it explicit)",
+        "order is passed to the model and checked to be a permutation on every opt/mux case; tree cases run the model with the identity reordering)",
+        "modelled, not verified: RectSet.Add/Remove/AddRectSet/RemoveRectSet/addSplit/rebuildSplits with the Go map as a duplicate-free list - tied by "
+        "comparing the stored rects and split lists with the real ones (verif hook) on every rs case and at every Solid() call of every rsp program; "
+        "splitRect and Rect.Contains are additionally tied to the regenerated source (KernelsTieRectSet)",
+        "rsp heap model: *RectSet objects are values in a store, Solid() reads only, AddRectSet/RemoveRectSet change only the receiver (also when the "
+        "argument is the receiver) - read off the code, tied by the R=/S= comparison at every Solid() call; earlier solids are expected to keep answering "
+        "for the set they were created from (newRectSetSolid copies every rect)",
         "SmoothJoinV2 order independence is proved for the distances (shared with SmoothJoin); which normals accompany "
         "tied distances is inherently order dependent and excluded by the generator (ties share a normal)",
+        "where two or more operands are within the radius and none is positive the property only demands order independence; the V bits of sj/sjb there "
+        "compare the exact rounding formula of the closure (validation of the faithful model)",
         "math.Sqrt in SmoothJoinV2 is a function parameter of the model (exact runs use normals with 1-cos^2 in {0,1}; "
         "IEEE runs use Float.sqrt)",
     ],
     assumptions=[
-        "operands respect their own bounds (Solid contract, property C03) for Optimize / SolidMux / StackSolids",
-        "no NaN distances or coordinates; finite radius >= 0 in generated cases (theorems hold for every radius)",
-        "RectSet boxes have positive thickness (a zero-thickness box makes newRectSetSolid recurse forever; see notes/C04.md)",
+        "operands respect their own bounds (Solid contract, property C03) for Optimize / SolidMux / StackSolids / nests; SDF operands of a smooth join "
+        "are positive only inside their bounds",
+        "no NaN distances or coordinates; finite radius >= 0 in generated cases (the closure theorems hold for every radius)",
+        "operand lists are non-empty (JoinedSolid.Min of an empty list indexes out of range)",
     ],
     level_text=(
         "Theorems (Lean 4, every ordered field / linear order, all operand lists and points): Joined/Intersected/Subtracted = "
-        "any/all/and-not and are permutation invariant; the SmoothJoin closure ends with exactly the two largest distances "
-        "(smooth_top2), hence is permutation invariant, equals the plain union at radius 0, for one operand and wherever fewer "
-        "than two operands are within the radius, and only adds points near two operands; Optimize and SolidMux "
-        "(Contains, IterContains calls and count) equal the plain join for every grouping order given bounded operands; "
-        "StackSolids/StackedSolid are the union translated by the accumulated offsets; the rect-set descent equals the union of "
-        "the stored boxes on every well-split tree. The models are tied to /repo by running the real closures on every "
-        "permutation of harness-chosen exact operands (and on IEEE doubles) and the real Optimize/SolidMux/StackSolids/RectSet "
-        "on lattice scenes, diffing against the specification the theorems prove the model equal to."),
+        "any/all/and-not and are permutation invariant; Optimize and SolidMux (Contains, IterContains calls and count, AllContains) equal the plain join "
+        "for every grouping order given bounded operands, and every NEST of these combinators (with the bounds each one reports to the next) equals the "
+        "pointwise boolean formula; the SmoothJoin closure ends with exactly the two largest distances (smooth_top2), hence is permutation invariant, "
+        "equals the plain union at radius 0, for one operand and wherever fewer than two operands are within the radius, and only adds points near two "
+        "operands - also as a solid with its grown joint bounds, which never cut the union; StackSolids/StackedSolid are the union translated by the "
+        "accumulated offsets; after every RectSet history the representation invariant holds, newRectSetSolid terminates and the solid is the union of "
+        "the stored boxes, and in every program over live RectSet objects every Solid() call answers for the receiver's current set. The models are tied "
+        "to /repo by running the real closures on every permutation of harness-chosen exact operands (and on IEEE doubles), the real smooth-join solids at "
+        "many points per object, the real Optimize/SolidMux/nests/StackSolids on lattice scenes and the real RectSet objects through histories and "
+        "programs with repeated Solid() calls, diffing against the specification the theorems prove the model equal to; splitRect / Rect.Contains are "
+        "re-proved equal to the regenerated source on every run."),
     level_note=(
-        "Proved about the models in lean/M3d/Model/SolidAlg.lean and RectSet.lean. Partial: RectSet history invariants and "
-        "StackedSolid bounds redundancy are checked per case, not proved; SolidMux.AllContains is tied by correspondence to the "
-        "IterContains theorem. Trusted: Lean kernel, propext/Classical.choice/Quot.sound, Go harness + driver, "
-        "GroupBounders as a permutation."),
+        "Proved about the models in lean/M3d/Model/SolidAlg.lean, SmoothSolid.lean, SolidExpr.lean, RectSet.lean, RectSetProg.lean. Trusted: Lean kernel, "
+        "propext/Classical.choice/Quot.sound, Go harness + driver, GroupBounders as a permutation, the map-as-list and heap-as-store reading of rect_set.go "
+        "(tied per case by the rect/split comparison)."),
 )
